@@ -2,7 +2,7 @@
 (* C09: at rest nobody alive is paused or half-stopped, everybody answers a   *)
 (* probe, queued mail keeps its order, a zombie runs no user code.            *)
 EXTENDS Integers, Sequences, FiniteSets, TLC, Json
-VARIABLES l, bad, zombies, probes, delivered, dl, lastDrv, requeued, stash, states, phase
+VARIABLES l, bad, zombies, probes, delivered, dl, lastDrv, requeued, stash, states, phase, dlTo, tellAt, firstFail
 
 (***************************************************************************)
 (* Trace alphabet (one JSON object per line, totally ordered by the turn   *)
@@ -22,18 +22,19 @@ Get(f, k, d) == IF k \in DOMAIN f THEN f[k] ELSE d
 Put(f, k, v) == [x \in DOMAIN f \cup {k} |-> IF x = k THEN v ELSE f[x]]
 Flag(rule) == IF bad = "" THEN rule ELSE bad
 Range(s) == {s[i] : i \in 1..Len(s)}
-vars == <<l, bad, zombies, probes, delivered, dl, lastDrv, requeued, stash, states, phase>>
-Fresh == zombies = {} /\ probes = <<>> /\ delivered = {} /\ dl = {} /\ lastDrv = <<>> /\ requeued = {} /\ stash = <<>> /\ states = <<>> /\ phase = ""
-FreshNext == zombies' = {} /\ probes' = <<>> /\ delivered' = {} /\ dl' = {} /\ lastDrv' = <<>> /\ requeued' = {} /\ stash' = <<>> /\ states' = <<>> /\ phase' = ""
+vars == <<l, bad, zombies, probes, delivered, dl, lastDrv, requeued, stash, states, phase, dlTo, tellAt, firstFail>>
+Fresh == zombies = {} /\ probes = <<>> /\ delivered = {} /\ dl = {} /\ lastDrv = <<>> /\ requeued = {} /\ stash = <<>> /\ states = <<>> /\ phase = "" /\ dlTo = {} /\ tellAt = <<>> /\ firstFail = 0
+FreshNext == zombies' = {} /\ probes' = <<>> /\ delivered' = {} /\ dl' = {} /\ lastDrv' = <<>> /\ requeued' = {} /\ stash' = <<>> /\ states' = <<>> /\ phase' = "" /\ dlTo' = {} /\ tellAt' = <<>> /\ firstFail' = 0
 Init == l = 1 /\ bad = "" /\ Fresh
 OnTell ==
     /\ (Ev.e = "Tell")
     /\ probes' = IF Ev.s = "probe" THEN Put(probes, Ev.m, Ev.a) ELSE probes
-    /\ UNCHANGED <<bad, zombies, delivered, dl, lastDrv, requeued, stash, states, phase>>
+    /\ tellAt' = Put(tellAt, Ev.m, l)
+    /\ UNCHANGED <<bad, zombies, delivered, dl, lastDrv, requeued, stash, states, phase, dlTo, firstFail>>
 OnHook ==
     /\ (Ev.e = "Hook")
     /\ zombies' = IF Ev.v = 0 /\ Ev.k \in {"restarted", "prelaunch"} THEN zombies \cup {Ev.a} ELSE zombies
-    /\ UNCHANGED <<bad, probes, delivered, dl, lastDrv, requeued, stash, states, phase>>
+    /\ UNCHANGED <<bad, probes, delivered, dl, lastDrv, requeued, stash, states, phase, dlTo, tellAt, firstFail>>
 OnDeliv ==
     /\ (Ev.e = "Deliv")
     /\ delivered' = IF Ev.k = "user" THEN delivered \cup {Ev.m} ELSE delivered
@@ -42,29 +43,30 @@ OnDeliv ==
     /\ bad' = IF Ev.a \in zombies THEN Flag("ZombieRunsUserCode")
                ELSE IF Ev.k = "user" /\ Ev.m \notin requeued /\ Ev.m < Get(lastDrv, Ev.a, 0) /\ Ev.s # "nop2" THEN Flag("QueuedMailInOrder")
                ELSE bad
-    /\ UNCHANGED <<zombies, probes, dl, stash, states, phase>>
+    /\ UNCHANGED <<zombies, probes, dl, stash, states, phase, dlTo, tellAt, firstFail>>
 OnStashed ==
     /\ (Ev.e = "Stashed")
     /\ stash' = Put(stash, Ev.a, Append(Get(stash, Ev.a, <<>>), Ev.m))
-    /\ UNCHANGED <<bad, zombies, probes, delivered, dl, lastDrv, requeued, states, phase>>
+    /\ UNCHANGED <<bad, zombies, probes, delivered, dl, lastDrv, requeued, states, phase, dlTo, tellAt, firstFail>>
 OnUnstashed ==
     /\ (Ev.e = "Unstashed")
     /\ LET s == Get(stash, Ev.a, <<>>) n == IF Ev.n <= Len(s) THEN Ev.n ELSE Len(s) IN
          /\ requeued' = requeued \cup {s[i] : i \in 1..n}
          /\ stash' = Put(stash, Ev.a, SubSeq(s, n + 1, Len(s)))
-    /\ UNCHANGED <<bad, zombies, probes, delivered, dl, lastDrv, states, phase>>
+    /\ UNCHANGED <<bad, zombies, probes, delivered, dl, lastDrv, states, phase, dlTo, tellAt, firstFail>>
 OnDL ==
     /\ (Ev.e = "DL")
     /\ dl' = IF Ev.k = "user" THEN dl \cup {Ev.m} ELSE dl
-    /\ UNCHANGED <<bad, zombies, probes, delivered, lastDrv, requeued, stash, states, phase>>
+    /\ dlTo' = IF Ev.k = "user" /\ Ev.a # "" THEN dlTo \cup {<<Ev.m, Ev.a>>} ELSE dlTo
+    /\ UNCHANGED <<bad, zombies, probes, delivered, lastDrv, requeued, stash, states, phase, tellAt, firstFail>>
 OnQBegin ==
     /\ (Ev.e = "QBegin")
     /\ states' = <<>> /\ phase' = Ev.s
-    /\ UNCHANGED <<bad, zombies, probes, delivered, dl, lastDrv, requeued, stash>>
+    /\ UNCHANGED <<bad, zombies, probes, delivered, dl, lastDrv, requeued, stash, dlTo, tellAt, firstFail>>
 OnAState ==
     /\ (Ev.e = "AState")
     /\ states' = Put(states, Ev.a, <<Ev.s, Ev.v, Ev.m>>)
-    /\ UNCHANGED <<bad, zombies, probes, delivered, dl, lastDrv, requeued, stash, phase>>
+    /\ UNCHANGED <<bad, zombies, probes, delivered, dl, lastDrv, requeued, stash, phase, dlTo, tellAt, firstFail>>
 OnQEnd ==
     /\ (Ev.e = "QEnd")
     /\ LET stuck == {a \in DOMAIN states : states[a][1] = "running" /\ states[a][2] = 1}
@@ -75,19 +77,26 @@ OnQEnd ==
                                  LET a == probes[m] s == Get(states, a, <<"gone", 0, 0>>)[1] IN
                                    \/ (s = "running" /\ m \notin delivered)
                                    \/ (s = "gone" /\ m \notin dl /\ m \notin delivered)}
+           \* mail that was sent before the first failure of the run (so it was queued behind, or delivered before, whatever
+           \* failed) to an actor that is still running at quiescence (never terminated, not a zombie) was dead-lettered
+           wrongly == {p \in dlTo : /\ p[2] \in DOMAIN states /\ states[p[2]][1] = "running" /\ p[2] \notin zombies
+                                     /\ p[1] \in DOMAIN tellAt /\ firstFail > 0 /\ tellAt[p[1]] < firstFail}
        IN bad' = IF stuck # {} THEN Flag("NobodyStaysPaused")
+                  ELSE IF wrongly # {} THEN Flag("QueuedMailSurvivesRestartOrResume")
                   ELSE IF half # {} THEN Flag("NobodyHalfStopped")
                   ELSE IF mail # {} THEN Flag("QueuedMailSurvives")
                   ELSE IF unanswered # {} THEN Flag("ProbeAnswered")
                   ELSE bad
-    /\ UNCHANGED <<zombies, probes, delivered, dl, lastDrv, requeued, stash, states, phase>>
+    /\ UNCHANGED <<zombies, probes, delivered, dl, lastDrv, requeued, stash, states, phase, dlTo, tellAt, firstFail>>
 OnStuck ==
     /\ (Ev.e = "Stuck")
     /\ bad' = Flag("NobodySpins")
-    /\ UNCHANGED <<zombies, probes, delivered, dl, lastDrv, requeued, stash, states, phase>>
+    /\ UNCHANGED <<zombies, probes, delivered, dl, lastDrv, requeued, stash, states, phase, dlTo, tellAt, firstFail>>
 OnReset == Ev.e = "Reset" /\ FreshNext /\ UNCHANGED bad
-OnOther == Ev.e \notin {"Tell", "Hook", "Deliv", "Stashed", "Unstashed", "DL", "QBegin", "AState", "QEnd", "Stuck", "Reset"} /\ UNCHANGED <<bad, zombies, probes, delivered, dl, lastDrv, requeued, stash, states, phase>>
-Next == l <= Len(TLog) /\ l' = l + 1 /\ (OnTell \/ OnHook \/ OnDeliv \/ OnStashed \/ OnUnstashed \/ OnDL \/ OnQBegin \/ OnAState \/ OnQEnd \/ OnStuck \/ OnReset \/ OnOther)
+OnFail == /\ Ev.e = "Fail" /\ firstFail' = (IF firstFail = 0 THEN l ELSE firstFail)
+          /\ UNCHANGED <<bad, zombies, probes, delivered, dl, lastDrv, requeued, stash, states, phase, dlTo, tellAt>>
+OnOther == Ev.e \notin {"Fail", "Tell", "Hook", "Deliv", "Stashed", "Unstashed", "DL", "QBegin", "AState", "QEnd", "Stuck", "Reset"} /\ UNCHANGED <<bad, zombies, probes, delivered, dl, lastDrv, requeued, stash, states, phase, dlTo, tellAt, firstFail>>
+Next == l <= Len(TLog) /\ l' = l + 1 /\ (OnTell \/ OnHook \/ OnDeliv \/ OnStashed \/ OnUnstashed \/ OnDL \/ OnQBegin \/ OnAState \/ OnQEnd \/ OnStuck \/ OnReset \/ OnFail \/ OnOther)
 Spec == Init /\ [][Next]_vars
 
 Ok == bad = ""
